@@ -168,6 +168,12 @@ func runValueFamily(c *core.Check, fam *valueFamily) {
 		cases, nt := checkDecl(c, name, prop+":"+val, i)
 		c.Count(cases)
 		c.AddFamily(name, cases, nt)
+		if i%4 == 1 {
+			// every fourth value also with a priority, which each rewrite must carry along
+			cases, nt := checkDecl(c, name, prop+":"+val+"!important", i)
+			c.Count(cases)
+			c.AddFamily(name, cases, nt)
+		}
 		if i%7919 == 13 {
 			out, _, _ := Minify("a{"+prop+":"+val+"}", Config{})
 			c.Sample(map[string]any{"in": "a{" + prop + ":" + val + "}", "out": out})
@@ -211,6 +217,9 @@ func failLess(a, b *core.Failure) bool {
 }
 
 func fail(c *core.Check, f core.Failure) {
+	if c.Known(f) {
+		return // listed cases are counted per class and never take one of the groupCap places
+	}
 	failMu.Lock()
 	defer failMu.Unlock()
 	k := [2]string{f.Family, f.Kind}
@@ -259,7 +268,7 @@ func flushFailures(c *core.Check) {
 		return a.Kind < b.Kind
 	})
 	for _, f := range all {
-		c.Fail(f)
+		c.FailUnlisted(f)
 	}
 	failGroups = map[[2]string]*failGroup{}
 	c.Extra["failing_cases_not_listed_over_group_cap"] = dropped
